@@ -26,8 +26,8 @@ theorem single_owner {q : Nat} {s : St} (h : Reachable q s) :
     rw [places_eq]; exact this
 
 example : ∃ s, run (init 2) [.queueDirect 1, .queueBatched 2, .queueBatched 3, .write (.direct 1) true .ok,
-      .read 1 .result, .cancel 3] = some s ∧
-    s.handed = [1, 2, 3] ∧ s.dropped = [3] ∧ outstanding s = [2] ∧ s.reader.calls = [1] ∧
+      .read 1 .result, .cancel 3, .queueUnsendable 5] = some s ∧
+    s.handed = [1, 2, 3, 5] ∧ deliveredCount s 5 = 1 ∧ places s 5 = 1 ∧ s.dropped = [3] ∧ outstanding s = [2] ∧ s.reader.calls = [1] ∧
     places s 1 = 1 ∧ places s 2 = 1 ∧ places s 3 = 1 ∧ places s 4 = 0 := by
   refine ⟨_, rfl, ?_⟩
   decide
@@ -86,30 +86,45 @@ example : ∃ s, run (init 2) [.queueBatched 1, .queueBatched 2, .cancel 2, .can
   decide
 
 /-- Every result produced locally (not derived from a response frame) is a connection-level
-error. -/
+error — or the marshalling error of a call whose request could not be built (`unsendable`);
+conversely every unsendable call has been completed with exactly that error. -/
 theorem failure_delivers_connErr {q : Nat} {s : St} (h : Reachable q s) :
-    ∀ d ∈ s.delivered, d.src = none → d.res = .connErr := (gr_reachable h).go.srcNone
+    (∀ d ∈ s.delivered, d.src = none →
+      d.res = .connErr ∨ (d.res = .fatal ∧ d.call ∈ s.unsendable)) ∧
+    (∀ c ∈ s.unsendable, Dlv.mk c .fatal none ∈ s.delivered ∧ deliveredCount s c = 1) := by
+  have g := (gr_reachable h).go
+  refine ⟨g.srcNone, fun c hc => ⟨g.unsFatal c hc, ?_⟩⟩
+  have h1 := at_most_once h c
+  have : 0 < deliveredCount s c := by
+    simp only [deliveredCount]
+    exact List.length_pos_of_mem (List.mem_filter.2 ⟨g.unsFatal c hc, by simp⟩)
+  omega
 
-example : ∃ s, run (init 2) [.queueDirect 1, .queueBatched 2, .close, .queueDirect 3] = some s ∧
-    s.delivered = [⟨1, .connErr, none⟩, ⟨2, .connErr, none⟩, ⟨3, .connErr, none⟩] := by
+example : ∃ s, run (init 2) [.queueDirect 1, .queueUnsendable 4, .queueBatched 2, .close, .queueDirect 3,
+      .queueUnsendable 5] = some s ∧
+    s.delivered = [⟨4, .fatal, none⟩, ⟨1, .connErr, none⟩, ⟨2, .connErr, none⟩, ⟨3, .connErr, none⟩,
+      ⟨5, .connErr, none⟩] ∧ s.unsendable = [4] := by
   refine ⟨_, rfl, ?_⟩
   decide
 
-/-- After the failure, a call handed to the connection is refused at once with a
-connection-level error, and nothing else changes. -/
+/-- After the failure, a call handed to the connection (through any of the three entry points) is
+refused at once with a connection-level error, and nothing else changes. -/
 theorem refused_after_done {s : St} {c : Nat} (hd : s.done = true) (hc : c ∉ s.handed)
     (hx : c ∉ s.ctxDone) :
     step s (.queueDirect c) =
         some { s with handed := s.handed ++ [c], delivered := s.delivered ++ [⟨c, .connErr, none⟩] } ∧
     step s (.queueBatched c) =
+        some { s with handed := s.handed ++ [c], delivered := s.delivered ++ [⟨c, .connErr, none⟩] } ∧
+    step s (.queueUnsendable c) =
         some { s with handed := s.handed ++ [c], delivered := s.delivered ++ [⟨c, .connErr, none⟩] } := by
   simp [step, hd, hc, hx]
 
 /-- (with the call's own context ended as well the Go `select` chooses at random between refusing
-and dropping; the model excludes that input for both entry points) -/
+and dropping; the model excludes that input for every entry point) -/
 theorem refused_excluded_when_ctx_ended {s : St} {c : Nat} (hd : s.done = true) (hc : c ∉ s.handed)
     (hx : c ∈ s.ctxDone) :
-    step s (.queueDirect c) = none ∧ step s (.queueBatched c) = none := by
+    step s (.queueDirect c) = none ∧ step s (.queueBatched c) = none ∧
+    step s (.queueUnsendable c) = none := by
   simp [step, hd, hc, hx]
 
 example : ∃ s, run (init 2) [.queueDirect 1, .readErr] = some s ∧ s.done = true ∧ 2 ∉ s.handed ∧
